@@ -5,6 +5,31 @@ ROOT = os.path.dirname(os.path.dirname(os.path.abspath(__file__)))
 IDS = ["C%02d" % i for i in range(1, 21)]
 
 CHECKS = {
+    "C01": dict(
+        technique="differential execution inside TLC: Exec.tla (small-step wasm-subset semantics, one state per instruction) runs input and output module over the same call sequence and compares observations",
+        text="Exec.tla interprets an i32 subset (locals, globals, structured control, br/br_if/br_table, call, call_indirect, byte/word loads and stores on several memories, host calls, instantiation with active segments and a start function). For each generated module of the subset and each fixture in it, TLC instantiates and executes the input and the walrus output on one instance each over the same calls (every exported function, twice) and requires equal instantiation outcome, results/traps, host-call trace and exported globals/memories/tables. Body.tla supplies the design-level fact that elision preserves order.",
+        note="Trusted: TLC; the projection of binaries into Exec programs (wasmparser). Values are in Z/2^15; the subset excludes floats, SIMD, atomics, 64-bit and reference instructions - for those C01 follows from C03 (every operator/immediate/operand preserved) and C04. Function identity across the round trip is read off walrus's index maps.",
+        design_ref="DESIGN.md §5 C01"),
+    "C05": dict(
+        technique="gate model ParseGate.tla model-checked; acceptance relation outcome=ok <=> independent validator verdict and hook-event gate order judged by TLC on recorded parses (Trace_Parse.tla)",
+        text="ParseGate.tla models Module::parse as validate-then-interpret per payload with deferred function bodies and the final callback; TLC checks over all payload sequences up to the bound that nothing is interpreted before validation, bodies only after the whole binary, callback once on success, and termination. On the implementation, random bytes, structure-aware mutants, fixtures (valid and invalid), per-proposal modules and depth-10^5 nesting are parsed under both feature configurations in a child process with a watchdog; TLC requires outcome in {ok, err}, outcome = ok iff the standalone validator accepts under the same features, and that the hook events (validated / interpret / on_parse) form a behaviour of the gate.",
+        note="Trusted: wasmparser's validator as the definition of validity, TLC. The space of byte strings is sampled. Hooks are compiled only with --cfg walrus_verif.",
+        design_ref="DESIGN.md §5 C05"),
+    "C09": dict(
+        technique="Parallel.tla (all interleavings of workers claiming per-function jobs) model-checked for SameAsSerial; serial and parallel builds compared by TLC on digests, decisions and observed job orders (Trace_Parallel.tla)",
+        text="Parallel.tla explores every interleaving of 3 workers over 4 jobs with every assignment of ok/error outcomes and checks that the collected vector, the first error in job order, the concatenation and the parallel `any` equal the serial ones. The harness is built twice (with and without walrus's parallel feature) from the same tree; many-function modules (1..300 functions, equal/unequal sizes, a third with two corrupted bodies), fixtures and a real-world module are processed serially and in parallel under RAYON_NUM_THREADS in {1,2,3,4,8,16}; TLC requires identical decisions, error messages and digests and that each observed job order (hook events) is a schedule of the serial job list.",
+        note="Trusted: TLC, 64-bit digests. Real thread-pool schedules are sampled, not controlled; exhaustiveness is on the model side.",
+        design_ref="DESIGN.md §5 C09"),
+    "C10": dict(
+        technique="row / subprogram relation judged by TLC (Trace_Dwarf.tla) on modules with synthesized DWARF (gimli::write) read back with gimli::read, relative to the code transform judged by C11",
+        text="For generated modules, fixtures and many-function modules the harness synthesizes well-formed DWARF (v4 and v5, one subprogram per function, one row per instruction whose line number names the instruction, per-function and spanning sequences), runs parse;[gc|edit];emit with DWARF generation on and reads rows and subprograms back; TLC requires each output row at the start of the output instruction its instruction became with equal file/column/is_stmt, every surviving instruction's row exactly once, rows and subprograms of removed code absent or tombstoned, and each subprogram range equal to the function's output entry.",
+        note="Trusted: gimli 0.26 (writer and reader), wasmparser, TLC. low_pc convention: start of the function's code-section entry. v5 rows naming file 0 are not synthesized. Two known findings about sequences spanning several functions.",
+        design_ref="DESIGN.md §5 C10"),
+    "C11": dict(
+        technique="exactness relation on the CodeTransform (monotone, name-preserving, onto map per function; ranges; section start) judged by TLC (Trace_Xform.tla) against independently decoded layouts",
+        text="With preserve_code_transform on, a probe custom section records the CodeTransform it is handed; TLC checks per kept function that the pairs form a strictly increasing, name-preserving map from input operator starts onto all output operator starts except inserted ones, that every function range is the output entry [size LEB, end), that code_section_start is the offset of the code section's contents, and that no pair refers to code that was not emitted - for unchanged, GC'd and builder-edited modules, TLC-enumerated control strings, fixtures, many-function modules and a real-world module.",
+        note="Trusted: wasmparser offsets, TLC. Which output operators are 'inserted' is determined from a marker constant (edits) and from if/else structure (the else walrus adds).",
+        design_ref="DESIGN.md §5 C11"),
     "C15": dict(
         technique="trace validation of TLC-enumerated build histories against Builder.tla (re-executed by TLC, Flatten computed in TLA+), design invariants TreeShaped/FlatBalanced/BranchesInRange",
         text="Builder.tla models the FunctionBuilder arena (append and positional insert of stack-neutral units, block_at/loop_at/if_else_at, dangling sequences attached later, br/br_if to enclosing sequences) and defines the in-order flattening with label depths. TLC enumerates every build history up to the bound (and random longer walks); each is replayed on the real builder (closure API at the end of a sequence, *_at API elsewhere), finished and emitted; the trace spec re-executes the history with the same actions and requires the decoded body to equal Flatten modulo an injective, type-preserving local map with the parameter pinned.",
